@@ -229,7 +229,7 @@ class _Redis(Backend):
     async def _transform_value(self, key: Key, value: bytes | None, default: Value | None):
         if value is None:
             return default
-        if value.isdigit():
+        if value.isdigit() or (value[:1] == b"-" and value[1:].isdigit()):  # integers are stored as their decimal text
             return int(value)
         return await self._serializer.decode(self, key=key, value=value, default=default)
 
